@@ -253,6 +253,8 @@ Definition rl_view_result (s : lstate) : nat * Z * option (Z * bytes * bool) :=
 Definition rl_view_flags (s : lstate) : bool * bool * bool * bool * bool :=
   (l_peers_closed s, Lookups.all_done s, l_panic s, l_aclosed s, l_ctx s).
 Definition rl_view_nq (s : lstate) : nat := l_nq s.
+(* Stop() was called: a query the run loop was in the middle of starting may still show up (it is cancelled at once) *)
+Definition rl_view_stopping (s : lstate) : bool := l_stopping s.
 Definition rl_cfg_api (c : lcfg) : nat :=
   match lc_api c with ABootstrap => 0 | AAnnounce => 1 | AGet => 2 | APut => 3 end.
 
